@@ -25,6 +25,10 @@ HOSTILE = ["'); canary(); ('", '"\ncanary()\n"', "__import__('os')", '{canary()}
            # templating / formatting metacharacters (a code generator that builds text with % or str.format)
            '%(label)s', 'a%(label).1r+canary()+%(label).1rb', '%s', '%(name)s', '{0}', '{label}', '${label}', '%%', '%c',
            'a%(label).1r+atom.__self__.x+%(label).1rb', '{0.__class__}', '%(x)r', '%(label)s%(label)s', 'x%(label).1ry']
+# non-ASCII text followed by a quote and text that would complete the surrounding generated line (an escaping routine
+# that treats non-ASCII constants separately from ASCII ones)
+HOSTILE += ["caf\u00e9' if canary() else 0)): #", "\u00e9'+canary()+'", "\u2603'); canary(); ('", "\u00e9' if canary() else 0), [])): #",
+            "\u00e9', [canary()])): #", "\U0001f600' or canary())): #", "\u00e9\\' if canary() else 0)): #", '\u00e9" if canary() else 0)): #']
 INTERNAL_MARKERS = ['$CUTIF']      # names the code generator uses internally (read off yp_generator.py)
 
 
